@@ -123,7 +123,14 @@ func (a *Allocation) AddPermission(perms *Permission) {
 func (a *Allocation) RemovePermission(addr net.Addr) {
 	a.permissionsLock.Lock()
 	defer a.permissionsLock.Unlock()
-	delete(a.permissions, ipnet.FingerprintAddr(addr))
+
+	// Nothing to remove (and nothing to report) if the permission is already gone, e.g.
+	// because its timer expired while the allocation was being closed.
+	fingerprint := ipnet.FingerprintAddr(addr)
+	if _, ok := a.permissions[fingerprint]; !ok {
+		return
+	}
+	delete(a.permissions, fingerprint)
 
 	if a.eventHandler.OnPermissionDeleted != nil {
 		if u, ok := addr.(*net.UDPAddr); ok {
